@@ -400,7 +400,7 @@ def conclude(pid, tier, seed, cfg, fams, results, smt_results, skipped, build_ok
         if r['status'] == 'pass':
             continue
         if r['status'] == 'cex' and r.get('reproduced'):
-            kf = [k for k in findings if k.get('property') == pid and k.get('harness') == r['harness']
+            kf = [k for k in findings if k.get('property') == pid and fnmatch.fnmatchcase(r['harness'], k.get('harness', ''))
                   and ('assert' not in k or k['assert'] in r.get('cex_desc', ''))]
             os.makedirs(rdir, exist_ok=True)
             path = os.path.join(rdir, r['harness'] + '.json')
@@ -426,7 +426,7 @@ def conclude(pid, tier, seed, cfg, fams, results, smt_results, skipped, build_ok
     for k in findings:
         if k.get('property') != pid:
             continue
-        rr = [r for r in results if r['harness'] == k.get('harness')]
+        rr = [r for r in results if fnmatch.fnmatchcase(r['harness'], k.get('harness', ''))]
         if rr and rr[0]['status'] == 'pass':
             log('NOTE: listed finding no longer reproduces: property=%s harness=%s' % (pid, k['harness']))
     for r, k in known_hits:
